@@ -126,7 +126,11 @@ def playback(unit: Unit, h: Harness, ws: Path, logdir: Path):
         cmd += ["--no-default-features"]
     if unit.features:
         cmd += ["--features", ",".join(unit.features)]
-    cmd += ["-Z", "concrete-playback"] + [f for f in unit.kani_flags] + ["--", fn.group(1)]
+    zflags = []
+    for i, f in enumerate(unit.kani_flags):
+        if f == "-Z" and i + 1 < len(unit.kani_flags):
+            zflags += ["-Z", unit.kani_flags[i + 1]]
+    cmd += ["-Z", "concrete-playback"] + zflags + ["--", fn.group(1)]
     try:
         env = core.kani_env(); env["RUST_BACKTRACE"] = "0"
         p = core.sh(cmd, cwd=cwd, env=env, timeout=900)
